@@ -690,7 +690,9 @@ def model_labels(spec):
     out = set()
     for c in spec["comps"]:
         for cc in comps_all(c):
-            if comp_free(cc) == 0:
+            # a parameter-free component is written to model.json as an *instance* when its constructor can rebuild it
+            # exactly (since 0b56c35: not when it holds a tuple); only then do the identifier tokens change on reload
+            if comp_free(cc) == 0 and cc["cls"] != "KT":
                 out.add("model:fixed-component")
             if any(p[0] == "A" for p in cc["args"].values()):
                 out.add("model:arith-prior")
